@@ -24,7 +24,7 @@ func TestC08(t *testing.T) {
 		cfg := func(rnd *rand.Rand) map[string]any {
 			return map[string]any{"frame": []int{0, 1, 1, 200}[rnd.Intn(4)], "rbatch": []int{0, 0, 1, 2}[rnd.Intn(4)]}
 		}
-		genWorldCases(t, rnd, vt.Pick(25, 400), vt.Pick(15, 200), vt.Pick(40, 60), vt.Pick(25, 40), cfg, yield)
+		genWorldCases(t, rnd, vt.Pick(25, 200), vt.Pick(15, 100), vt.Pick(40, 30), vt.Pick(25, 20), cfg, yield)
 	}
 	vt.Run(t, gen, nil, func(c vt.Case) vt.Event {
 		w := decode[aWorld](c["world"])
